@@ -2530,6 +2530,8 @@ return 1;""",
         output.extend(["#ifndef %s" % guard, "#define %s" % guard])
 
         output.append("")
+        # Lengths of '#' format units are Py_ssize_t.
+        output.append("#define PY_SSIZE_T_CLEAN")
         output.append("#include <Python.h>")
         self.header_type_include.write_headers(output)
 
